@@ -1684,6 +1684,11 @@ impl OutstationSession {
                     Iin::default() | Iin2::PARAMETER_ERROR,
                 ));
 
+                // a SELECT that is refused as a whole still replaces a previous selection
+                if let ControlType::Select = ct {
+                    self.state.select = None;
+                }
+
                 return match ct {
                     ControlType::Select => err,
                     ControlType::Operate => err,
